@@ -387,6 +387,14 @@ func (c *c08) hashFunctions(kp *world.KeyPool, dids []*world.DID, tier string) {
 		if err != nil {
 			continue
 		}
+		// the whole path inside the model: canonicalizer (C07 model) then multihash, on two spellings of the value
+		for _, style := range []int{0, 1 + c.rng.Intn(15)} {
+			txt := reserialise(generic, c.rng, style)
+			got, err := hashing.CalculateModelMultihash(txt, world.SHA256)
+			d := base()
+			d["text"] = string(txt)
+			c.hcase("text-hash", emit.App("HText", emit.Hex(txt), emit.N(uint64(world.SHA256))), emit.App("HStr", optStr(got, err)), d, "", true)
+		}
 		for style := 1; style < 16; style++ {
 			txt := reserialise(generic, c.rng, style)
 			var back interface{}
@@ -411,6 +419,22 @@ func (c *c08) hashFunctions(kp *world.KeyPool, dids []*world.DID, tier string) {
 					}
 				}
 			}
+		}
+	}
+	// numbers that differ in value must hash differently (the hash is over the exact JCS number form)
+	for _, pair := range [][2]string{{"16777216", "16777217"}, {"0.1", "0.10000000149011612"}, {"1e21", "1000000000000000100000"},
+		{"9007199254740992", "9007199254740994"}, {"1.7976931348623157e308", "1.7976931348623155e308"}, {"5e-324", "1e-323"}, {"0.30000000000000004", "0.3"}} {
+		var hs [2]string
+		for i, n := range pair {
+			txt := []byte(`{"n":` + n + `}`)
+			var err error
+			hs[i], err = hashing.CalculateModelMultihash(txt, world.SHA256)
+			d := map[string]interface{}{"text": string(txt)}
+			c.hcase("text-hash", emit.App("HText", emit.Hex(txt), emit.N(uint64(world.SHA256))), emit.App("HStr", optStr(hs[i], err)), d, "", true)
+		}
+		if hs[0] == hs[1] {
+			c.r.Direct = append(c.r.Direct, out.Direct{Oracle: "hash_binds_content", What: "different numbers " + pair[0] + " / " + pair[1] + " share a multihash",
+				Case: map[string]interface{}{"a": pair[0], "b": pair[1]}})
 		}
 	}
 	// base64url layer
@@ -798,7 +822,7 @@ func selfCertified(did string) string {
 func runC08(c *ctx) error {
 	r := out.New(c.out)
 	x := &c08{r: r, rng: rand.New(rand.NewSource(c.seed))}
-	x.gh = r.Group("cases_C08_hash", []string{"Base.Bytes", "Hash.Multihash", "Corr.Hash"}, "hcase", "h_mismatches")
+	x.gh = r.Group("cases_C08_hash", []string{"Base.Bytes", "Hash.Multihash", "Hash.ValueOnly", "Corr.Hash"}, "hcase", "h_mismatches")
 	x.gl = r.Group("cases_C08_longform", []string{"Base.Bytes", "Resolve.Op", "Jws.Compact", "Parser.Accept", "Parser.LongForm", "Corr.Hash"}, "lcase", "l_mismatches")
 	kp := world.NewKeyPool(20)
 	tb := world.NewTable()
